@@ -17,6 +17,7 @@ checked on real certificate blocks by the harness.
 -/
 import SpsdkVerif.Model.Sb31
 import SpsdkVerif.Proofs.Sb31
+import SpsdkVerif.Proofs.Sb31Ext
 import SpsdkVerif.Proofs.CertBlockRom
 
 namespace SpsdkVerif.C05
@@ -144,7 +145,8 @@ theorem block_keys (c : CryptoOps) (s : ObjState) (hg : Good c s) (he : s.cfg.en
       kdf c (kdf c s.cfg.pck s.cfg.timestamp s.cfg.rights false (keyBitsOf s.cfg.hashLen)) n s.cfg.rights true
         (keyBitsOf s.cfg.hashLen) := by
   rw [kdf_eq c _ _ _ false _ (hg.rights he) (keyBitsOf_cases _), kdf_eq c _ _ _ true _ (hg.rights he) (keyBitsOf_cases _)]
-  simp only [blockKey, hg.kdk he, hg.keyLen, Bool.false_eq_true, if_false, if_true]
+  simp only [blockKey, deriveVia, Sb31Consts.blkCall, Sb31Consts.kdfModeBlk, Sb31Consts.kdfModeKdk, hg.kdk he, hg.keyLen,
+    Bool.false_eq_true, if_false, if_true]
 
 /-- KEY SEPARATION: two data blocks of a container are encrypted under the same key only if they are the same
     block — otherwise two different KDF inputs with the same CMAC are exhibited -/
@@ -355,6 +357,207 @@ theorem decoder_progress (b rest : Sb31.Bytes) (cmd : Cmd) (h : parseCmd b = .ok
 theorem decoder_fuel_suffices (f k : Nat) (b : Sb31.Bytes) (hb : b.length ≤ 16 * f) : parseCmds (f + k) b = parseCmds f b :=
   parseCmds_fuel_suffices f k b hb
 
+/-! ## 8. phase 3: KDF call sites, key substitution, header round trip, `validate()`, `export(cert_block=…)`, every command class -/
+
+/-- the arguments `KeyDerivator` passes at its two call sites, generated by EXECUTING `KeyDerivator.__init__` and `get_block_key` for
+    every accepted access-rights value and key length: the configured access rights and key length reach BOTH derivations unchanged;
+    the KDK is derived from (PCK, timestamp) in mode 1, a block key from (KDK, block number) in mode 2 -/
+theorem kdf_call_sites_agree (pck kdk : Sb31.Bytes) (ts n keyLen rights : Nat) :
+    Sb31Consts.kdkCall pck ts keyLen rights = (pck, ts, rights, 1, keyLen) ∧
+    Sb31Consts.blkCall kdk n keyLen rights = (kdk, n, rights, 2, keyLen) := ⟨rfl, rfl⟩
+
+/-- the derivation data the code builds IS the documented layout, for all four access-rights values, both key lengths, both modes and
+    every derivation constant / counter; the access rights sit in byte 20 as `rights << 6` -/
+theorem kdf_layout_documented (const rights : Nat) (blk : Bool) (keyBits iter : Nat) (hr : rights < 4)
+    (hk : keyBits = 128 ∨ keyBits = 256) :
+    Sb31Consts.kdfData const rights (if blk then Sb31Consts.kdfModeBlk else Sb31Consts.kdfModeKdk) keyBits iter =
+      kdfInput const rights blk keyBits iter ∧
+    (kdfInput const rights blk keyBits iter)[20]? = some (UInt8.ofNat (rights * 64)) ∧
+    (kdfInput const rights blk keyBits iter).length = 32 := by
+  refine ⟨(kdfInput_eq const rights blk keyBits iter hr hk).symm, ?_, ?_⟩
+  · have h12 : (leEnc 12 const).length = 12 := leEnc_length 12 const
+    simp [kdfInput, List.getElem?_append_right, h12, zeros]
+  · simp [kdfInput, leEnc_length, beEnc_length, zeros]
+
+/-- ACCESS RIGHTS REACH EVERY KEY: the KDK of a constructed encrypted object and the key of every block are the documented KDF under the
+    object's `kdk_access_rights`, whichever of the four values it is (constructor and `get_block_key` through the generated call sites) -/
+theorem access_rights_reach_every_key (c : CryptoOps) (cfg : Cfg) (s : ObjState) (h : newObj c cfg = .ok s)
+    (he : cfg.encrypted = true) (n : Nat) :
+    cfg.rights < 4 ∧
+    s.kdk = kdf c cfg.pck cfg.timestamp cfg.rights false (keyBitsOf cfg.hashLen) ∧
+    blockKey c s n = kdf c s.kdk n cfg.rights true (keyBitsOf cfg.hashLen) := by
+  obtain ⟨hg, hcfg, _⟩ := newObj_good c cfg s h
+  have he' : s.cfg.encrypted = true := by rw [hcfg]; exact he
+  have hr := hg.rights he'
+  refine ⟨by rw [← hcfg]; exact hr, ?_, ?_⟩
+  · rw [hg.kdk he', hg.keyLen, kdf_eq c _ _ _ false _ (by rw [← hcfg]; exact hr) (keyBitsOf_cases _), hcfg]; rfl
+  · rw [kdf_eq c _ _ _ true _ (by rw [← hcfg]; exact hr) (keyBitsOf_cases _), ← hcfg, ← hg.keyLen]; rfl
+
+/-- what is left of `whole_file_authenticated` when the loader used ANOTHER signing key: the file carries a different certificate block,
+    which the loader accepted against the SAME fused root-of-trust hash and which names that other key, and the genuine signature
+    bytes verify under that other key -/
+structure KeySubstitution (c : CryptoOps) (dev : Dev) (s : ObjState) (r : Rand) (file' : Sb31.Bytes) (ob : SigOb) : Prop where
+  otherKey : ob.pub ≠ c.pubOf s.cfg.sk
+  certified : ∃ (p h1 cert rest : Sb31.Bytes) (ci : CertInfo) (obs : List SigOb),
+    file' = p ++ (h1 ++ (cert ++ rest)) ∧ p.length = 60 ∧ h1.length = ob.coord ∧
+    romCert c dev.rotkh cert = .ok (ci, obs) ∧ ci.signPub = ob.pub ∧ cert ≠ s.cfg.cert
+  verifies : c.verify (.ecdsa (algOfCoord ob.coord)) ob.pub ob.msg (sigOf c s r) = true
+
+/-- ONE SIGNATURE AUTHENTICATES THE WHOLE FILE, without the 'same signing key' hypothesis: a file the loader accepts with the signature
+    bytes of an export in its signature field IS that export, or a forgery / collision is exhibited, or it is a KEY SUBSTITUTION in the
+    precise sense of `KeySubstitution` (another certificate block accepted against the same fuses) -/
+theorem whole_file_authenticated_any_key (hc : CryptoLaws c) (s : ObjState) (hg : Good c s) (wf : StateWF c s)
+    (dev : Dev) (obs : List SigOb) (hd : DevOK c dev s obs) (r : Rand) (file' : Sb31.Bytes) (res : RomOk)
+    (h : romLoad c dev file' = .ok res) (ob : SigOb) (hlast : res.obligations.getLast? = some ob)
+    (hsig : ob.sig = sigOf c s r) :
+    file' = (exportSb c s r).2 ∨ Break c ∨ KeySubstitution c dev s r file' ob := by
+  by_cases hkey : ob.pub = c.pubOf s.cfg.sk
+  · rcases whole_file_bound hc s hg wf dev obs hd r file' res h ob hlast hkey hsig with e | b
+    · exact Or.inl e
+    · exact Or.inr (Or.inl b)
+  · right; right
+    obtain ⟨b0, hb0, _, hobs⟩ := romLoad_inv c dev file' res h
+    obtain ⟨p, h1, cert, sig, ci, obs', e, lp, lh1, _, _, hrc, _, hob, hver, _, _⟩ := parseBlock0_inv_cert c dev.rotkh file' b0 hb0
+    rw [hobs, hob, getLast_append_single] at hlast
+    injection hlast with hlast
+    subst hlast
+    dsimp only at hkey hsig ⊢
+    refine ⟨hkey, ⟨p, h1, cert, sig ++ b0.rest, ci, obs', e, lp, lh1, hrc, rfl, ?_⟩, by rw [← hsig]; exact hver⟩
+    intro hce
+    rw [hce, hd.cert] at hrc
+    injection hrc with hrc
+    injection hrc with hci _
+    exact hkey (by rw [← hci])
+
+/-- connection with C03: when both certificate blocks of a key substitution are well-formed exported `CertBlockV21`s of the C03 model, the
+    substitute commits to the SAME root-of-trust hash as the genuine one (C03 `sb31_romCert_ok_rot`; by C03 `rot_binding_v21` that is the
+    same root key table or a hash collision) — so the other signing key is a key certified under the same root keys (a re-issued ISK
+    certificate or another root of the table), never a key from outside the root of trust -/
+theorem key_substitution_same_root_of_trust (dev : Dev)
+    {pointOk pointOk' : Sb31.Bytes → Bool} {ca ca' : Bool} {used used' : Nat} {cv cv' : Spec.Curve} {cb cb' : CertBlock.CertBlockV21}
+    (wfc : CertBlock.WFv21 c pointOk ca used cv cb) (rwf : CertBlock.RomWF c used cv cb)
+    (hisk : ∀ i, cb.isk = some i → c.verify (.ecdsa cv.hashAlg) cb.rkr.rootPublicKey
+      (CertBlock.rkrBytes cb.rkr ++ CertBlock.iskSignedPart i) i.signature = true)
+    (wfc' : CertBlock.WFv21 c pointOk' ca' used' cv' cb') (rwf' : CertBlock.RomWF c used' cv' cb')
+    (hisk' : ∀ i, cb'.isk = some i → c.verify (.ecdsa cv'.hashAlg) cb'.rkr.rootPublicKey
+      (CertBlock.rkrBytes cb'.rkr ++ CertBlock.iskSignedPart i) i.signature = true)
+    (x x' : CertInfo × List SigOb)
+    (hacc : romCert c dev.rotkh (CertBlock.bytesV21 cb) = .ok x) (hacc' : romCert c dev.rotkh (CertBlock.bytesV21 cb') = .ok x') :
+    CertBlock.rotkhOfRecord c cv' cb'.rkr = CertBlock.rotkhOfRecord c cv cb.rkr := by
+  rw [← CertBlock.sb31_romCert_ok_rot wfc rwf hisk dev.rotkh x hacc, ← CertBlock.sb31_romCert_ok_rot wfc' rwf' hisk' dev.rotkh x' hacc']
+
+/-- HEADER ROUND TRIP for all values: every header whose fields fit their struct codes (flags, block count, block size, 64-bit timestamp,
+    firmware version, total length, image type, certificate block offset, 16 description bytes) is read back exactly, with the rest -/
+theorem header_roundtrip (h : Header) (wf : HeaderWF h) (rest : Sb31.Bytes) :
+    parseHeader (encHeader h ++ rest) = .ok (h, rest) ∧ (encHeader h).length = 60 :=
+  ⟨parseHeader_enc h wf rest, encHeader_length h wf.description⟩
+
+/-- the header of EVERY export reads back as the object's configuration: flags, timestamp, firmware version, image type and the
+    description padded / truncated to 16 bytes, block count and total length as computed from the commands and the certificate block -/
+theorem exported_header_roundtrip (_hc : CryptoLaws c) (s : ObjState) (hg : Good c s) (wf : StateWF c s) (r : Rand) :
+    ∃ rest, parseHeader (exportSb c s r).2 = .ok (hdrSpec s, rest) ∧
+      (hdrSpec s).flags = s.cfg.flags ∧ (hdrSpec s).timestamp = s.cfg.timestamp ∧ (hdrSpec s).fwVersion = s.cfg.fwVersion ∧
+      (hdrSpec s).imageType = (if s.cfg.isNxp then 7 else 6) ∧ (hdrSpec s).description = adjustDesc s.cfg.description := by
+  rw [exportSb_bytes c s r hg.hl]
+  exact ⟨_, parseHeader_enc _ (hdrSpec_wf s hg wf) _, rfl, rfl, rfl, rfl, rfl⟩
+
+/-- `_adjust_description`: always 16 bytes; shorter descriptions are zero padded, longer ones cut after 16 bytes -/
+theorem description_adjusted (d : Sb31.Bytes) :
+    (adjustDesc d).length = 16 ∧ (d.length ≤ 16 → adjustDesc d = d ++ zeros (16 - d.length)) ∧
+    (16 ≤ d.length → adjustDesc d = d.take 16) := by
+  refine ⟨adjustDesc_length d, fun h => ?_, fun h => ?_⟩
+  · simp [adjustDesc, Sb31Consts.descLen, List.take_of_length_le h]
+  · have : (d.take 16).length = 16 := by simp; omega
+    simp [adjustDesc, Sb31Consts.descLen, this, zeros]
+
+/-- the header layout and the description adjustment EXECUTED from the source by the generator (marker values in every field; the
+    descriptions "", "A", "AB", … up to 20 characters) are what the model computes -/
+theorem header_layout_executed :
+    encHeader ⟨0xA1A2A3A4, 0xB1B2B3B4, Sb31Consts.blockSize 32, 0xC1C2C3C4C5C6C7C8, 0xD1D2D3D4, 0xE1E2E3E4, 6,
+      Sb31Consts.certBlockOffset 32, (List.range 16).map (fun i => UInt8.ofNat (0x30 + i))⟩ = Sb31Consts.hdrSample ∧
+    Sb31Consts.descTable.length = 21 ∧
+    ∀ p ∈ Sb31Consts.descTable, adjustDesc ((List.range p.1).map (fun i => UInt8.ofNat (0x41 + i))) = p.2 := by decide
+
+/-- `validate()` lets `export()` proceed only when the signature provider holds the key the certificate block names -/
+theorem export_validates_signer (c : CryptoOps) (certSigner : Sb31.Bytes) (s : ObjState) (ov : Option Sb31.Bytes) (r : Rand) :
+    (c.pubOf s.cfg.sk ≠ certSigner → exportFull c certSigner s ov r = .error .spsdk) ∧
+    (∀ out, exportFull c certSigner s ov r = .ok out → c.pubOf s.cfg.sk = certSigner ∧ out = exportOv c s ov r) := by
+  constructor
+  · intro hne; simp [exportFull, validateSb, hne]
+  · intro out h
+    unfold exportFull validateSb at h
+    split at h
+    · cases h
+    · rename_i hv
+      split at hv
+      · rename_i hk
+        split at h
+        · injection h with h; exact ⟨hk.1, h.symm⟩
+        · cases h
+      · cases hv
+
+/-- … and on every constructed object the header part of `validate()` never fires (block size 292/308, image type 6/7, total length
+    ≥ the header size after any history, description of 16 bytes) -/
+theorem validate_header_passes (c : CryptoOps) (cfg : Cfg) (s : ObjState) (h : newObj c cfg = .ok s) (ops : List Op) :
+    validateHdr (run c s ops) = true := by
+  obtain ⟨hg, _, _⟩ := newObj_good c cfg s h
+  have hg' := run_good s hg ops
+  have key : ∀ (ops : List Op) (t : ObjState), 60 ≤ t.totalLength → 60 ≤ (run c t ops).totalLength := by
+    intro ops
+    induction ops with
+    | nil => intro t ht; exact ht
+    | cons op ops ih =>
+      intro t ht
+      show 60 ≤ (run c (step c t op) ops).totalLength
+      apply ih
+      cases op with
+      | add cmd => exact ht
+      | exp r => simp only [step, exportSb, Sb31Consts.updTotalLength]; omega
+  have h0 : 60 ≤ s.totalLength := by
+    unfold newObj at h
+    split at h
+    · cases h
+    · split at h
+      · cases h
+      · injection h with h; subst h; simp [Sb31Consts.initTotalLength]
+  have htl := key ops s h0
+  have hadj := adjustDesc_length (run c s ops).cfg.description
+  rcases hg'.hl with h32 | h48
+  · cases hn : (run c s ops).cfg.isNxp <;>
+      simp [validateHdr, h32, hn, Sb31Consts.blockSize, Sb31Consts.imageTypeNxp, Sb31Consts.imageTypeOem, Sb31Consts.headerSize, htl, hadj]
+  · cases hn : (run c s ops).cfg.isNxp <;>
+      simp [validateHdr, h48, hn, Sb31Consts.blockSize, Sb31Consts.imageTypeNxp, Sb31Consts.imageTypeOem, Sb31Consts.headerSize, htl, hadj]
+
+/-- `export(cert_block=…)`: `None` / `b""` is the plain export; an override of the SAME length is exactly the export of the object that
+    owns that certificate block — so, when the loader accepts the override block for the signing key, the file is accepted and decodes
+    to the object's commands (an override of another length leaves `image_total_length` computed from the object's own block) -/
+theorem export_override (hc : CryptoLaws c) (s : ObjState) (hg : Good c s) (ov : Sb31.Bytes) (r : Rand) (hne : ov ≠ [])
+    (hlen : ov.length = s.cfg.cert.length) (wf : StateWF c (withCert s ov))
+    (dev : Dev) (obs : List SigOb) (hd : DevOK c dev (withCert s ov) obs) :
+    exportOv c s none r = exportSb c s r ∧ exportOv c s (some []) r = exportSb c s r ∧
+    ∃ ob, romLoad c dev (exportOv c s (some ov) r).2 = .ok ⟨hdrSpec (withCert s ov), s.cmds, ob⟩ := by
+  refine ⟨rfl, rfl, ?_⟩
+  rw [exportOv_same_length c s ov r hne hlen]
+  exact ⟨_, romLoad_export hc (withCert s ov) (good_withCert hg ov) wf dev obs hd r⟩
+
+/-- EVERY COMMAND CLASS IS COVERED, checked mechanically: the concrete command classes of commands.py (generated: descendants of
+    `BaseCmd` without subclasses) are exactly the 14 classes with a generated tag, each is the class of one constructor of `Cmd`, and
+    that constructor exports the tag the class passes — `cmd31_roundtrip` is stated for every `Cmd`, hence for every class -/
+theorem every_command_class_covered :
+    Sb31Consts.cmdLeafClasses = Sb31Consts.classTags.map (·.1) ∧
+    cmdKinds.map Cmd.className = ["CmdErase", "CmdLoad", "CmdExecute", "CmdCall", "CmdProgFuses", "CmdProgIfr", "CmdLoadCmac", "CmdCopy",
+      "CmdLoadHashLocking", "CmdLoadKeyBlob", "CmdConfigureMemory", "CmdFillMemory", "CmdFwVersionCheck", "CmdReset"] ∧
+    (∀ cls ∈ Sb31Consts.cmdLeafClasses, ∃ cmd ∈ cmdKinds, cmd.className = cls) ∧
+    (∀ cmd ∈ cmdKinds, (cmd.className, tagWord (encCmd cmd)) ∈ Sb31Consts.classTags ∧ cmd.wf = true) := by decide
+
+/-- the tag word does not depend on the field values: every command exports the tag of its class -/
+theorem command_tag_of_class (cmd : Cmd) : (cmd.className, tagWord (encCmd cmd)) ∈ Sb31Consts.classTags := by
+  cases cmd <;>
+    simp [Cmd.className, tagWord, encCmd, loadLike, baseHdr, words4, zeroPad, u32, u16, Sb31Consts.classTags, Sb31Consts.loadAlign,
+      Sb31Consts.keyBlobAlign, leEnc_length, List.drop_append, List.take_append] <;>
+    simp [List.drop_eq_nil_of_le, List.take_of_length_le, leEnc_length] <;> decide
+
+
 /-! ## non-vacuity: the hypotheses are satisfiable by a concrete, non-trivial container -/
 
 /-- a toy instance of the primitives (identity "cipher" on 16-byte blocks, constant hash, constant signatures);
@@ -424,6 +627,53 @@ example : [Cmd.erase 0 4096 1, .load 0x100 [1, 2, 3] 2, .execute 0xFFFFFFFF, .ca
 
 example : parseCmd (encCmd (.loadKeyBlob 0xFFFF [9] 0xFFFF) ++ [0xAA]) = .ok (.loadKeyBlob 0xFFFF [9] 0xFFFF, [0xAA]) :=
   cmd31_roundtrip _ (by decide) _
+
+/-! ### non-vacuity of the phase-3 theorems -/
+
+example : Sb31Consts.kdfData 0x1234 2 Sb31Consts.kdfModeBlk 256 2 = kdfInput 0x1234 2 true 256 2 :=
+  (kdf_layout_documented 0x1234 2 true 256 2 (by decide) (Or.inr rfl)).1
+
+/-- all four access-rights values give four different context bytes (0x00, 0x40, 0x80, 0xC0) -/
+example : [0, 1, 2, 3].map (fun r => (Sb31Consts.kdfData 7 r 1 128 1)[20]?) = [some 0x00, some 0x40, some 0x80, some 0xC0] := by decide
+
+/-- an encrypted object with access rights 1 (not the default 3) is constructed, and its keys follow the documented KDF -/
+example : ∃ s, newObj toyOps { exCfg with rights := 1 } = .ok s ∧
+    blockKey toyOps s 5 = kdf toyOps s.kdk 5 1 true 128 := by
+  refine ⟨_, rfl, ?_⟩
+  exact (access_rights_reach_every_key toyOps { exCfg with rights := 1 } _ rfl rfl 5).2.2
+
+/-- `whole_file_authenticated_any_key` applies to the export itself -/
+example : (exportSb toyOps exState [2]).2 = (exportSb toyOps exState [2]).2 ∨ Break toyOps ∨
+    KeySubstitution toyOps exDev exState [2] (exportSb toyOps exState [2]).2
+      ⟨exState.cfg.hashLen, toyOps.pubOf exState.cfg.sk, signedOf toyOps exState, sigOf toyOps exState [2]⟩ :=
+  whole_file_authenticated_any_key toyLaws exState exGood exWF exDev [] exDevOK [2] _ _
+    (rom_accepts toyLaws exState exGood exWF exDev [] exDevOK [2]) _ (by simp) rfl
+
+/-- the hypotheses of `key_substitution_same_root_of_trust` are those of `rom_accepts_cert_model`, twice (C03 exhibits a well-formed block) -/
+example (dev : Dev) {pointOk : Sb31.Bytes → Bool} {ca : Bool} {used : Nat} {cv : Spec.Curve} {cb : CertBlock.CertBlockV21}
+    (wfc : CertBlock.WFv21 c pointOk ca used cv cb) (rwf : CertBlock.RomWF c used cv cb)
+    (hisk : ∀ i, cb.isk = some i → c.verify (.ecdsa cv.hashAlg) cb.rkr.rootPublicKey
+      (CertBlock.rkrBytes cb.rkr ++ CertBlock.iskSignedPart i) i.signature = true)
+    (x : CertInfo × List SigOb) (hacc : romCert c dev.rotkh (CertBlock.bytesV21 cb) = .ok x) :
+    CertBlock.rotkhOfRecord c cv cb.rkr = CertBlock.rotkhOfRecord c cv cb.rkr :=
+  key_substitution_same_root_of_trust dev wfc rwf hisk wfc rwf hisk x x hacc hacc
+
+example : HeaderWF (hdrSpec exState) := hdrSpec_wf exState exGood exWF
+
+example : ∃ rest, parseHeader (exportSb toyOps exState [2]).2 = .ok (hdrSpec exState, rest) :=
+  (exported_header_roundtrip toyLaws exState exGood exWF [2]).imp fun _ h => h.1
+
+/-- a signature provider holding another key is refused; the right one exports -/
+example : exportFull toyOps [1, 2, 3] exState none [2] = .error .spsdk ∧
+    exportFull toyOps exRootPub exState none [2] = .ok (exportSb toyOps exState [2]) := by
+  refine ⟨(export_validates_signer toyOps [1, 2, 3] exState none [2]).1 (by decide), ?_⟩
+  have hv : validateSb toyOps exRootPub exState = .ok () := by decide
+  have he : exportable exState = true := by rw [exportable, cmdBytes_length]; decide
+  simp [exportFull, hv, he, exportOv_none]
+
+/-- the override with the object's own certificate block bytes (non-empty, same length) -/
+example : ∃ ob, romLoad toyOps exDev (exportOv toyOps exState (some exCert) [2]).2 = .ok ⟨hdrSpec exState, exCmds, ob⟩ :=
+  (export_override toyLaws exState exGood exCert [2] (by decide) rfl exWF exDev [] exDevOK).2.2
 
 /-- why the constructor must refuse partial fuse words: the encoder stores `len(data) // 4`, so five data bytes
     would not come back (the loader reads one word) -/
